@@ -234,3 +234,19 @@ def run(prog, chk):
             chk.ob("R6.in-kex-cleared-when-not-pending", f.qual, bool(nodes) and ff.dominated(nodes, guard_edge=g),
                    "%s:%d" % (f.module.path, st.lineno), "in_kex = False only under `not need_rekey()`")
     chk.floor("R6", "in_kex clears", n_clear, 2)
+    # in_kex is decided before the send gate reopens (else a woken sender can re-trigger a rekey that is then lost)
+    pn = prog.func("Transport._parse_newkeys")
+    fp = Flow(prog, pn)
+    gate = [n for (n, c) in fp.nodes_with_call(name="self.clear_to_send.set")]
+    dec = fp.nodes(lambda n: n.kind == "cond" and unparse(n.ast) == "self.packetizer.need_rekey()")
+    clr = fp.nodes(lambda n: n.kind == "stmt" and isinstance(n.ast, ast.Assign) and unparse(n.ast.targets[0]) == "self.in_kex")
+    ok = len(gate) == 1 and bool(dec) and fp.dominated(gate, guard_nodes=dec)
+    if ok and clr:
+        r = fp.cfg.reach([d for (d, l) in fp.cfg.succ[gate[0].id]])
+        ok = not any(c.id in r for c in clr)
+    chk.ob("R6.in-kex-before-gate-reopens", "_parse_newkeys", ok, pn.loc, "in_kex settled before clear_to_send.set()")
+    ai = [n for (n, c) in fp.nodes_with_call(name="self._activate_inbound")]
+    chk.ob("R6.gate-after-new-keys", "_parse_newkeys", bool(ai) and len(gate) == 1 and fp.dominated(gate, guard_nodes=ai), pn.loc,
+           "send gate reopens only after inbound keys are active")
+    from ._shared import check_compression_activation
+    check_compression_activation(prog, chk, "R7.compression-restarts-with-keys")
